@@ -36,7 +36,7 @@ from harness import lib
 from harness.props import _graphgen as G
 
 ID = "C17"
-RULE = ("GFA2 graphs of 2-5 segments and 1-7 edges (dovetails, containments, internals, parallel edges, the same "
+RULE = ("GFA2 graphs of 2-5 segments and 1-8 edges (dovetails, containments, internals, parallel edges, the same "
         "adjacency written from the other strand, self-edges, a few unnamed edges) with 1-6 O/U groups: O items are "
         "random walks with random elision of segments/edges, read forwards or backwards, 25% perturbed (flipped "
         "sign, foreign item, shuffled), nested through p+/p- up to depth 4 with walk extension on either side; U "
@@ -389,7 +389,7 @@ def gen_case(rng, tier, i):
     segs = list("ABCDE")[:nseg]
     lines_s = ["S\t%s\t%d\t*" % (s, SEGLEN[s]) for s in segs]
     lines_e = []
-    ne = rng.randint(1, 7)
+    ne = rng.randint(1, 8)
     specs = []
     for j in range(ne):
         if specs and rng.random() < 0.2:
@@ -432,7 +432,7 @@ def gen_case(rng, tier, i):
                     items.append(rng.choice(segs) + rng.choice("+-"))
             else:
                 start = (rng.choice(segs), rng.choice("+-"))
-                w = random_walk(rng, c, start, rng.choice([0, 1, 1, 2, 2, 3, 4]))
+                w = random_walk(rng, c, start, rng.choice([0, 1, 2, 2, 3, 3, 4]))
                 if rng.random() < 0.3:
                     w = flip(w)
                 items = elide(rng, c, w)
